@@ -2,6 +2,7 @@
    of the access / websocket-admission machine (induction over operation lists). *)
 From Relay Require Import Base.Prelude Base.AList Model.DenyStore Model.Token Model.Access Proofs.Access_proofs.
 Local Open Scope string_scope.
+Local Open Scope list_scope.
 Local Notation E := N.eqb_eq.
 
 (* ------------------------------------------------------------------ lookups in the code store *)
@@ -238,17 +239,135 @@ Lemma no_code_no_join cfg s path code ua :
   let s' := fst (ws_accept cfg s path code ua) in
   let w := snd (ws_accept cfg s path code ua) in
   (w = WNotFound \/ w = WRefused) /\ hub s' = hub s /\ reg s' = reg s /\
-  status_step true s' = status_step true s.
+  (forall c, snd (status_step true s' c) = snd (status_step true s c)).
 Proof.
   intros Hc. cbn zeta.
   pose proof (ws_accept_cases cfg s path code ua) as H. cbn zeta in H.
   destruct H as [(Hw & Hh & Hr & _)|(k & e & m & -> & _ & Hj & _)].
-  - repeat split; auto.
-    assert (forall a b, hub a = hub b -> status_step true a = status_step true b) as G.
-    { intros a b Hab. unfold status_step. rewrite Hab. Fail reflexivity. admit. }
-    admit.
+  - repeat split; auto. intros c. unfold status_step. rewrite Hh.
+    destruct (has_scope true "relay:stats" c) as [|[|]]; reflexivity.
   - exfalso. destruct Hj as (Hk & Hp & Ht & Hte & _).
     destruct Hc as [Hc|[(k' & Hc & Hn)|[(k' & e' & Hc & Hk' & Hne)|Hc]]]; try discriminate; try contradiction.
     + inversion Hc; subst. congruence.
     + inversion Hc; subst. rewrite Hk in Hk'. inversion Hk'; subst. congruence.
-Abort.
+Qed.
+
+(* a joined connection is bound to exactly the topic of its path, which is exactly the token's topic *)
+Lemma topic_of_path_exact cfg s path code ua m :
+  snd (ws_accept cfg s path code ua) = WJoined m ->
+  exists k e, code = Some k /\ clk k (codes s) = Some e /\
+              m_topic m = topic_of_path (slashify path) /\ m_topic m = e_topic e /\
+              m_scopes m = e_scopes e /\ m_booking m = e_booking e /\ m_exp m = e_exp e /\
+              prefix_of_path (slashify path) = "session".
+Proof.
+  intros Hw. pose proof (ws_accept_cases cfg s path code ua) as H. cbn zeta in H.
+  destruct H as [([H|H] & _)|(k & e & m' & -> & Hw' & Hj & _)]; try congruence.
+  rewrite Hw in Hw'. inversion Hw'; subst m'. exists k, e.
+  destruct Hj as (Hk & Hp & Ht & Hte & Hsc & Hb & Hx & _). auto 10.
+Qed.
+
+(* a code is spent by the attempt that presents it, whatever the outcome *)
+Lemma code_spent cfg s path k ua :
+  prefix_of_path (slashify path) = "session" ->
+  clk k (codes (fst (ws_accept cfg s path (Some k) ua))) = None.
+Proof.
+  intros Hp. unfold ws_accept. rewrite Hp. rewrite String.eqb_refl. cbn [negb].
+  destruct (clk k (codes s)) as [e|] eqn:Hk; [|cbn; exact Hk].
+  assert (R : clk k (crm k (codes s)) = None) by (apply lookup_remove_eq; exact E).
+  repeat match goal with |- context [if ?c then _ else _] => destruct c end; cbn; exact R.
+Qed.
+
+(* ------------------------------------------------------------------ a spent code stays dead *)
+Lemma step_next_code cfg s o : (next_code s <= next_code (fst (step cfg s o)))%N.
+Proof.
+  destruct o as [r|path code ua|c|t| |]; unfold step, step_gen; try (cbn; lia).
+  - pose proof (handle_effect cfg s r) as H. cbn zeta in H. destruct (handle true cfg s r) as [s' x]. cbn [fst] in *.
+    destruct H as [->|[(k & e & _ & ->)|[(bid & e & ->)|(bid & e & ->)]]]; cbn; lia.
+  - pose proof (ws_accept_cases cfg s path code ua) as H. cbn zeta in H.
+    destruct (ws_accept cfg s path code ua) as [s' w]. cbn [fst snd] in *.
+    destruct H as [(_ & _ & _ & -> & _)|(k & e & m & _ & _ & _ & ->)]; cbn; lia.
+Qed.
+
+Lemma step_keeps_dead cfg s o k :
+  wf s -> (k < next_code s)%N -> clk k (codes s) = None -> clk k (codes (fst (step cfg s o))) = None.
+Proof.
+  intros Hw Hlt Hn. destruct (clk k (codes (fst (step cfg s o)))) as [e|] eqn:H; [|reflexivity].
+  apply step_codes in H; [|exact Hw]. destruct H as [H|(r & _ & Hm)]; [congruence|].
+  destruct Hm as (id & b & Hm). assert (k = next_code s) by apply Hm. lia.
+Qed.
+
+Lemma spent_code_stays_dead cfg s k ops :
+  wf s -> (k < next_code s)%N -> clk k (codes s) = None -> clk k (codes (final cfg s ops)) = None.
+Proof.
+  intros Hw Hlt Hn. induction ops as [|o ops IH] using rev_ind; [exact Hn|].
+  rewrite final_snoc. apply step_keeps_dead; [apply final_wf; exact Hw| |exact IH].
+  clear IH. induction ops as [|o' ops IH] using rev_ind; [exact Hlt|].
+  rewrite final_snoc. eapply N.lt_le_trans; [exact IH|apply step_next_code].
+Qed.
+
+(* once a code has been presented on a session path, no later attempt with it joins, in any continuation *)
+Lemma reused_code_never_joins cfg t ops1 path k ua ops2 path' ua' :
+  (k < next_code (reach cfg t ops1))%N ->
+  prefix_of_path (slashify path) = "session" ->
+  let s := reach cfg t (ops1 ++ OWs path (Some k) ua :: ops2) in
+  snd (ws_accept cfg s path' (Some k) ua') = WNotFound \/ snd (ws_accept cfg s path' (Some k) ua') = WRefused.
+Proof.
+  intros Hlt Hp. cbn zeta. unfold reach.
+  replace (ops1 ++ OWs path (Some k) ua :: ops2) with ((ops1 ++ [OWs path (Some k) ua]) ++ ops2)
+    by (rewrite <- app_assoc; reflexivity).
+  assert (Happ : forall a b, final cfg (init t) (a ++ b) = final cfg (final cfg (init t) a) b)
+    by (intros a b; unfold final; apply fold_left_app).
+  rewrite Happ, final_snoc.
+  set (s1 := final cfg (init t) ops1) in *.
+  set (s2 := fst (step cfg s1 (OWs path (Some k) ua))).
+  assert (Hw2 : wf s2) by (apply step_wf; apply final_wf; apply wf_init).
+  assert (Hd : clk k (codes s2) = None).
+  { unfold s2, step, step_gen. pose proof (code_spent cfg s1 path k ua Hp) as H.
+    destruct (ws_accept cfg s1 path (Some k) ua); exact H. }
+  assert (Hl : (k < next_code s2)%N) by (eapply N.lt_le_trans; [exact Hlt|apply step_next_code]).
+  pose proof (spent_code_stays_dead cfg s2 k ops2 Hw2 Hl Hd) as Hdead.
+  assert (Hc : Some k = None \/ (exists k0, Some k = Some k0 /\ clk k0 (codes (final cfg s2 ops2)) = None) \/
+               (exists k0 e, Some k = Some k0 /\ clk k0 (codes (final cfg s2 ops2)) = Some e /\
+                             e_topic e <> topic_of_path (slashify path')) \/
+               prefix_of_path (slashify path') <> "session")
+    by (right; left; exists k; auto).
+  pose proof (no_code_no_join cfg (final cfg s2 ops2) path' (Some k) ua' Hc) as H. cbn zeta in H. destruct H as [H _]. exact H.
+Qed.
+
+(* ------------------------------------------------------------------ runs never fault *)
+Lemma run_outputs cfg s ops x :
+  In x (snd (run cfg s ops)) -> exists s1 o, x = snd (step cfg s1 o).
+Proof.
+  revert s. induction ops as [|o ops IH]; intros s; [cbn; intros []|].
+  unfold run. cbn [run_gen]. fold (step cfg s o).
+  destruct (step cfg s o) as [s1 y] eqn:Hs. fold (run cfg s1 ops).
+  destruct (run cfg s1 ops) as [s2 ys] eqn:Hr. cbn [snd]. intros [<-|Hin].
+  - exists s, o. rewrite Hs. reflexivity.
+  - apply (IH s1). rewrite Hr. exact Hin.
+Qed.
+
+Lemma run_never_faults cfg s ops : ~ In (OutResp Panic) (snd (run cfg s ops)).
+Proof.
+  intros H. apply run_outputs in H. destruct H as (s1 & o & H).
+  destruct o as [r|path code ua|c|t| |]; unfold step, step_gen in H; try (cbn in H; discriminate).
+  - pose proof (handle_answers cfg s1 r) as Ha. destruct (handle true cfg s1 r) as [s' x]. cbn [snd] in *.
+    inversion H; subst; contradiction.
+  - destruct (ws_accept cfg s1 path code ua); cbn in H; discriminate.
+Qed.
+
+(* ------------------------------------------------------------------ path grammar: a plain topic is read back exactly *)
+Fixpoint all_chars (p : ascii -> bool) (s : string) : bool :=
+  match s with EmptyString => true | String a r => p a && all_chars p r end.
+
+Lemma take_while_all p s : all_chars p s = true -> take_while p s = s.
+Proof.
+  induction s as [|a r IH]; cbn; [reflexivity|]. rewrite andb_true_iff. intros [Ha Hr]. rewrite Ha, IH; auto.
+Qed.
+
+Lemma topic_chars p : all_chars cls_topic (topic_of_path p) = true.
+Proof.
+  assert (G : forall s, all_chars cls_topic (take_while cls_topic s) = true).
+  { induction s as [|a r IH]; cbn; [reflexivity|]. destruct (cls_topic a) eqn:Ha; cbn; [rewrite Ha, IH|]; reflexivity. }
+  unfold topic_of_path. destruct p as [|a r]; [reflexivity|]. destruct (is_slash a); [|reflexivity].
+  destruct (drop_while cls_prefix r) as [|b t]; [reflexivity|]. destruct (is_slash b); [apply G|reflexivity].
+Qed.
